@@ -15,6 +15,8 @@ BENIGN = False
 RUST_LOCK = threading.Lock()   # Rust mutants share one cargo target dir: one at a time
 HERE = os.path.dirname(os.path.dirname(os.path.abspath(__file__)))
 REPO = os.environ.get("VERIF_REPO", "/repo")
+RS_TARGET = os.environ.get("VERIF_MUT_RS_TARGET") or "/tmp/ts-verif-mut-rs-target-%d" % os.getpid()
+WITNESS_TARGET = "/tmp/ts-verif-mut-witness-target-%d" % os.getpid()
 
 
 def run_one(path):
@@ -42,8 +44,8 @@ def run_one(path):
             s = s.replace(e["find"], e["replace"], e.get("count", 1))
             open(p, "w").write(s)
         env = dict(os.environ, VERIF_REPO=scratch, VERIF_OUT=scratch + "/.out", VERIF_MUTANT="1", VERIF_CACHE=scratch + "/.cache",
-                   VERIF_RS_TARGET=os.environ.get("VERIF_MUT_RS_TARGET", "/tmp/ts-verif-mut-rs-target"),
-                   VERIF_WITNESS_TARGET="/tmp/ts-verif-mut-witness-target")
+                   VERIF_RS_TARGET=RS_TARGET,
+                   VERIF_WITNESS_TARGET=WITNESS_TARGET)
         if c_only and RS_FACTS[0]:
             env["VERIF_RS_FACTS_DIR"] = RS_FACTS[0]     # C-only mutation: Rust facts are those of the real tree
             env["VERIF_WITNESS_REPO"] = REPO
@@ -113,8 +115,8 @@ def main():
             res.append(r)
             print("%-8s %s/%s  %s" % (r[2], r[1], r[0], r[3]))
     bad = [r for r in res if r[2] not in ("KILLED", "SILENT")]
-    shutil.rmtree(os.environ.get("VERIF_MUT_RS_TARGET", "/tmp/ts-verif-mut-rs-target"), ignore_errors=True)
-    shutil.rmtree("/tmp/ts-verif-mut-witness-target", ignore_errors=True)
+    shutil.rmtree(RS_TARGET, ignore_errors=True)
+    shutil.rmtree(WITNESS_TARGET, ignore_errors=True)
     print("%s: %d total, %d as expected, %d not" % ("benign variants" if BENIGN else "mutants", len(res), len(res) - len(bad), len(bad)))
     out = os.environ.get("VERIF_MUTANT_SUMMARY")
     if out:
